@@ -1,4 +1,5 @@
 import GenjaxModel.Proofs.LoweringR
+import GenjaxModel.Proofs.Interp
 /-!
 # C14 — unseeded sampling can never be compiled into a fixed-randomness program
 
@@ -93,5 +94,23 @@ theorem C14_asis_grad_mvmap_jit_cex :
 theorem C14_asis_vmap_cex :
     outcome Cfg.asis [.vmapU] = .replicated ∧ outcome Cfg.spec [.vmapU] = .batchError := by
   decide
+
+/-! ### The Seed interpreter as an interpreter (Model/Interp.lean): no site escapes it -/
+
+/-- `seed` with the guard of fix c963c34, on every Jaxpr (any nesting of cond / scan bodies it interprets and of
+    equations it re-binds): if it returns, it has given a key to EVERY sampling site, each exactly once, in
+    evaluation order; it raises exactly when it reaches a re-bound equation that still holds a site -/
+theorem C14_seed_no_site_escapes (j : Interp.J) :
+    (∀ h, Interp.run j = some h → h = j.sites) ∧ (Interp.run j = none ↔ j.blocked = true) :=
+  ⟨Interp.run_handles_all j, Interp.run_none_iff_blocked j⟩
+
+/-- the code before the fix: a site escapes (is evaluated by JAX with hidden randomness) exactly on the
+    Jaxprs on which the guarded interpreter raises; smallest witness: one site inside one re-bound equation -/
+theorem C14_seed_unguarded_escapes (j : Interp.J) :
+    ((Interp.runOld j).2 ≠ [] ↔ Interp.run j = none) ∧
+    Interp.runOld (.call .rebind (.site 0 .done) .done) = ([], [0]) ∧
+    Interp.run (.call .rebind (.site 0 .done) .done) = none :=
+  ⟨Interp.runOld_escapes_iff j, rfl, rfl⟩
+
 
 end Genjax.Lowering
